@@ -176,9 +176,11 @@ gen_req(vh_rng *rg, const struct rp_h *h, struct req *q, uint16_t seq)
     q->addr = vh_chance(rg, 1, 2) ? addrs[vh_below(rg, 9)] : (uint32_t)vh_rand(rg);
     q->w16 = vh_chance(rg, 1, 6) ? !h->mem16 : h->mem16;
     size_t ws = q->w16 ? 2 : 1;
-    size_t cap = (h->blocksize - sizeof(RPFrame) - 16) / 2; /* fits under either semantics */
-    if (cap > 140)
-        cap = 140;
+    /* capacity: the largest block whose response message (header + payload) is not larger than the frame
+     * buffer; for writes the request itself has that size */
+    size_t cap = (h->blocksize - sizeof(RPFrame) - (h->serial ? 16 : 12)) / ws;
+    if (cap * ws > 290)
+        cap = 290 / ws;
     if (x < 8) {
         q->kind = RT_READ_REQ;
         q->bsize = (uint32_t)(vh_chance(rg, 1, 5) ? (vh_chance(rg, 1, 2) ? 0 : cap) : vh_below(rg, cap + 1));
